@@ -139,7 +139,15 @@ Cur(cs, g) == EpochOf(g, cs.g[g].chain)
 MlsState(cs, g) == GS(g, cs.g[g].chain)
 
 \* sync_group_metadata_from_mls: record := what the MLS state says
-Sync(cs, g) == [cs EXCEPT !.g[g].rec.epoch = Cur(cs, g), !.g[g].rec.data = MlsState(cs, g)]
+\* When the synced epoch is ahead of the stored record's, the events recorded Failed because they could not be decrypted
+\* (no epoch determined) become Retryable: they may have been made for the epoch just reached -- a commit or message handed
+\* over ahead of its predecessor.  (before the fix -- deviation UndecryptableNeverRetried -- only a rollback did that)
+Sync(cs, g) ==
+    LET adv   == Cur(cs, g) > cs.g[g].rec.epoch /\ "UndecryptableNeverRetried" \notin Dev
+        retry == {x \in DOMAIN cs.proc : cs.proc[x].g = g /\ cs.proc[x].state = "failed" /\ cs.proc[x].epoch = NoEpoch}
+        cs1   == [cs EXCEPT !.g[g].rec.epoch = Cur(cs, g), !.g[g].rec.data = MlsState(cs, g)]
+    IN  IF adv THEN [cs1 EXCEPT !.proc = [x \in DOMAIN @ |-> IF x \in retry THEN [@[x] EXCEPT !.state = "retryable"] ELSE @[x]]]
+        ELSE cs1
 
 -----------------------------------------------------------------------------
 (* Message ordering (C18): default display order created_at, processed_at, id DESC *)
@@ -865,10 +873,16 @@ Excused_RollbackBeforeValidation(c, g) ==
 Excused_RotationCommit(c, g) ==
     LET k == NextNeeded(c, g) IN
     /\ "RotationDropsInFlight" \in Dev
-    /\ k # NoE /\ ev[k].tag # cl[c][g].rec.data.nid
+    /\ k # NoE
+    /\ \/ ev[k].tag # cl[c][g].rec.data.nid
+       \* ... or it was handed over while its id was NOT YET in force at c (ahead of the rotation commit): same dead end
+       \/ /\ k \in DOMAIN proc[c] /\ proc[c][k].state = "failed" /\ proc[c][k].g = ""
+          /\ ev[k].tag # ginfo[g].init.nid
 Excused_RotationMsg(c, e) ==
     /\ "RotationDropsInFlight" \in Dev
-    /\ ev[e].tag # cl[c][ev[e].g].rec.data.nid
+    /\ \/ ev[e].tag # cl[c][ev[e].g].rec.data.nid
+       \/ /\ e \in DOMAIN proc[c] /\ proc[c][e].state = "failed" /\ proc[c][e].g = ""       \* met before the rotation commit
+          /\ ev[e].tag # ginfo[ev[e].g].init.nid
     /\ e \in DOMAIN proc[c] /\ proc[c][e].state = "failed"
 
 \* finding EvictedNeverRecovers: a member removed by a commit that later loses the MIP-03 race cannot
